@@ -9,7 +9,7 @@ import Mathlib.Data.Nat.Cast.Basic
 namespace SignaloModel.Sinks
 open SignaloModel.Median (push push_lastN)
 
-variable {K : Type} [Field K]
+variable {K : Type} [CommRing K] [Div K]
 
 def window (N : Nat) (xs : List K) : List K := xs.drop (xs.length - N)
 
